@@ -113,10 +113,18 @@ theorem predictorValid_bridge (p : Int) : FB.predictorValid p = pdf_FlatePredict
   omega
 
 theorem ccitt_validate_bridge (f : FB.FCCITT) (v : Int) :
-    f.validate = (pdf_FilterCCITTFax_validate ⟨f.k, f.endOfLine, f.byteAlign, f.columns, f.rows, f.ignoreEOB, f.blackIs1, f.damaged⟩ v).isNone := by
-  rw [Bool.eq_iff_iff, Option.isNone_iff_eq_none, ccitt_validate_iff]
+    f.validate = true ↔
+      pdf_FilterCCITTFax_validate ⟨f.k, f.endOfLine, f.byteAlign, f.columns, f.rows, f.ignoreEOB, f.blackIs1, f.damaged⟩ v = some none := by
+  rw [ccitt_validate_iff]
+  have hg : FB.geoMax f.cols = max 1 (min 65536 (134217728 / max (if f.columns = 0 then 1728 else f.columns) 1)) := by
+    unfold FB.geoMax FB.FCCITT.cols
+    have hp : (Gen.limits_MaxImagePixels : Int) = 134217728 := by decide
+    have hh : (Gen.limits_MaxImageHeight : Int) = 65536 := by decide
+    rw [hp, hh, Int.tdiv_eq_ediv_of_nonneg (by omega)]
   unfold FB.FCCITT.validate FB.maxDimV filter_FilterCCITTFax_validate_maxDim
+  rw [hg]
   simp only []
+  generalize max 1 (min 65536 (134217728 / max (if f.columns = 0 then 1728 else f.columns) 1)) = M
   split <;> (try split) <;> (try split) <;> simp <;> omega
 /-- **bridge**: `predictParams` of the hand model = generated `predictParams` -/
 theorem predictParams_bridge (p colors bpc columns : Int) :
